@@ -17,10 +17,10 @@ CHECKS = {
     },
     "C17": {
         "text": "Proof on the real example-backend code (Kani): TimedMessage ordering contract for any queued messages - never Equal for distinct queued messages, antisymmetric, transitive, refining (timestamp, insertion order) - full domain over timestamps; "
-                "pop hands out a message exactly when it is due, exactly once; bounded: FIFO for 2 queued messages on the real BinaryHeap.",
+                "pop hands out a queued message exactly when it is due, exactly once.",
         "design_ref": "DESIGN.md §4 U14, §5 C17",
-        "note": "Receive-queue ordering only (config = None path). Beyond 2 queued messages FIFO rests on the proved ordering contract plus BinaryHeap's documented contract. Not covered: TCP framing and socket behaviour (I/O).",
-        "technique": "contract-based deductive verification: Kani/CBMC contract harnesses (full-domain symbolic timestamps) on the real crate; one bounded stand-in on the real BinaryHeap, labelled",
+        "note": "Receive-queue ordering only (config = None path). FIFO for N queued messages rests on the proved ordering contract plus BinaryHeap's documented contract (pop returns a greatest element); an end-to-end run through the real heap is intractable for CBMC even for 2 messages. Not covered: TCP framing and socket behaviour (I/O).",
+        "technique": "contract-based deductive verification: Kani/CBMC contract harnesses (full-domain symbolic timestamps) on the real example-backend crate",
     },
     "C03": {
         "text": "Proof, unbounded (Verus on the verbatim ServerEntityMap and its entry API): the two maps stay exact inverses of each other under every entry operation, under insert given its (weakest) precondition, and clear; "
